@@ -73,14 +73,28 @@ def ref_timing(block, funcs):
     return out
 
 
-def timing(design, variant=0):
+def timing(design, variant=0, history=()):
+    """`history`: delay-table variants of analyses run earlier in this process (on another block and on
+    this one) - an analysis must not depend on, or leave anything behind for, another one"""
     import pyrtl
     from fam import designs
+    for hv in history:
+        for d0 in ({'name': 'binop', 'params': {'op': '+', 'wa': 3, 'wb': 3}}, design):
+            b0 = designs.build(d0)
+            try:
+                with contextlib.redirect_stdout(io.StringIO()):
+                    pyrtl.TimingAnalysis(block=b0, gate_delay_funcs=custom_funcs(hv) if hv >= 0 else None)
+            except KeyError:
+                pass
     block = designs.build(design)
     funcs = custom_funcs(variant) if variant >= 0 else None
+    keys0 = None if funcs is None else dict(funcs)
     try:
         with contextlib.redirect_stdout(io.StringIO()):
             ta = pyrtl.TimingAnalysis(block=block, gate_delay_funcs=funcs)
+        if keys0 is not None and (set(funcs) != set(keys0) or any(funcs[k] is not keys0[k] for k in keys0)):
+            return dict(failed=True, observed='the caller\'s gate_delay_funcs dict was modified',
+                        expected='unchanged')
     except KeyError:
         if variant == 2:
             return dict(failed=False, observed='skipped (args untimed)', expected='-', skipped=True)
